@@ -720,6 +720,11 @@ func c11CheckBoot(c *mc.Ctx, b c11Boot) {
 		}
 		return so.String(), nil
 	}
+	if b.Input == "aa.fa" || b.Input == "aa2.fa" {
+		// a short protein replicate may hold only letters that are nucleotide codes too: the alphabet is
+		// stated, so that re-reading a replicate cannot change it
+		b.Flags = append(append([]string{}, b.Flags...), "--alphabet", "aa")
+	}
 	direct, err := run(append(append([]string{"build", "distboot", "-i", in, "-n", fmt.Sprint(b.N), "--seed", fmt.Sprint(b.Seed), "-m", b.Model}, b.Flags...), b.BootFlags...)...)
 	if err != nil {
 		c.Violation("C11/bootstrap-equivalence/command-fails", err.Error(), b)
